@@ -161,7 +161,15 @@ func md5hex(b []byte) string {
 
 // Guard runs f and converts a panic into a violation of class "panic" when the
 // stack shows sts frames, otherwise into an inconclusive run.
+// scenarioZones: the local time zone of the processes under test varies from scenario
+// to scenario (by index, so that a replay gets the same one): UTC, ahead of it, behind it.
+// Day files of the rolling logs are named by LOCAL date.
+var scenarioZones = []*time.Location{time.UTC, time.FixedZone("ahead", 11*3600+1800), time.UTC, time.FixedZone("behind", -9*3600)}
+
 func (c *Ctx) Guard(index int, scenario any, f func()) {
+	if index >= 0 && os.Getenv("VERIF_NO_ZONES") == "" {
+		time.Local = scenarioZones[index%len(scenarioZones)]
+	}
 	defer func() {
 		if p := recover(); p != nil {
 			st := string(debug.Stack())
